@@ -39,7 +39,9 @@ FORBIDDEN_CODES = [0, 1, 999, 1004, 1005, 1006, 1015, 1016, 1100, 2000, 2999]
 HS_PLAIN = {}
 HS_DEFLATE = {'extra': [('Sec-WebSocket-Extensions', 'permessage-deflate')]}
 _REQ = b'GET / HTTP/1.1\r\nSec-WebSocket-Key: AAAAAAAAAAAAAAAAAAAAAA==\r\n\r\n'
-HS_LEN = {False: len(refhttp.make_response(_REQ, HS_PLAIN)), True: len(refhttp.make_response(_REQ, HS_DEFLATE))}
+HS_UNKNOWN_EXT = {'extra': [('Sec-WebSocket-Extensions', 'x-webkit-deflate-frame, x-unknown; foo=1')]}
+HS_LEN = {False: len(refhttp.make_response(_REQ, HS_PLAIN)), True: len(refhttp.make_response(_REQ, HS_DEFLATE)),
+          'unknown-ext': len(refhttp.make_response(_REQ, HS_UNKNOWN_EXT))}
 
 
 # ---------------------------------------------------------------- deflate payload of exact length
@@ -122,7 +124,7 @@ def violation_frames(cls, p, in_fragment, compression):
     if cls == 'close-1byte':
         return F(8, b'\x03')
     if cls == 'close-code':
-        return F(8, refws.close_payload(p['code'], VM))
+        return F(8, refws.close_payload(p['code'], p.get('reason', VM)))
     if cls == 'bad-utf8-text':
         if in_fragment:
             return None
@@ -175,6 +177,11 @@ def violation_params(rnd=None):
     out.append(('close-1byte', {}))
     for code in FORBIDDEN_CODES:
         out.append(('close-code', dict(code=code)))
+    # reasons that look like format strings (JSON, braces): must be treated as data
+    for code in (1005, 0, 2999):
+        for reason in (b'{"error": "<<VIOLATING-FRAME>>", "retry": 5}', b'bye {} <<VIOLATING-FRAME>>', b'oops } <<VIOLATING-FRAME>>',
+                       b'{0} {1!r} <<VIOLATING-FRAME>>', b'{<<VIOLATING-FRAME>>'):
+            out.append(('close-code', dict(code=code, reason=reason)))
     for bad in BAD_UTF8:
         out.append(('bad-utf8-text', dict(bad=bad)))
         out.append(('bad-utf8-later-fragment', dict(bad=bad)))
@@ -224,11 +231,11 @@ def prefix7(k):
 # ---------------------------------------------------------------- cases
 def cases(tier, seed, i, n):
     def allcases():
-        ctxs = ['fresh', 'infrag', 'deflate']
+        ctxs = ['fresh', 'infrag', 'deflate', 'unknown-ext']
         for ctx in ctxs:
             for b0 in range(256):
                 yield dict(kind='hdr', ctx=ctx, b0=b0)
-        yield gen.mark('all 65536 two-byte headers x 3 contexts (fresh, in-fragment, deflate)')
+        yield gen.mark('all 65536 two-byte headers x 4 contexts (fresh, in-fragment, deflate, unknown-extension handshake)')
         vps = violation_params()
         # position sweep over the fixed prefix
         for k in range(8):
@@ -256,7 +263,7 @@ def cases(tier, seed, i, n):
             yield dict(kind='gen', msgs=msgs, open=rnd.random() < 0.4, open_ping=rnd.random() < 0.5,
                        cls=cls, p=p, seg=rnd.choice(('coalesced', 'random', 'random', 'bytewise', 'perframe')),
                        cutseed=rnd.randrange(1 << 30), z=rnd.random() < 0.25,
-                       suffix=rnd.choice(('text', 'binary+ping', 'close', 'none')), app_close=rnd.random() < 0.2)
+                       suffix=rnd.choice(('text', 'binary+ping', 'close', 'none')), app_close=rnd.random() < 0.2, uext=rnd.random() < 0.2)
     return gen.shard(allcases(), i, n)
 
 
@@ -305,7 +312,8 @@ def run_stream(case, acc):
     elif sfx == 'close':
         suffix = refws.enc_frame(1, SM) + refws.enc_frame(8, refws.close_payload(1000, SM))
     stream = pre + vf + suffix
-    hl = HS_LEN[z]
+    uext = bool(case.get('uext')) and not z
+    hl = HS_LEN['unknown-ext' if uext else z]
     seg = case['seg']
     if seg == 'coalesced':
         cuts = None
@@ -316,9 +324,9 @@ def run_stream(case, acc):
     else:
         rnd = random.Random(case['cutseed'])
         cuts = [hl + c for c in gen.rand_cuts(rnd, len(stream))] + [hl]
-    w = H.World(H.hs_server([('raw', stream), ('eof',)], HS_DEFLATE if z else HS_PLAIN), cuts=cuts)
+    w = H.World(H.hs_server([('raw', stream), ('eof',)], HS_DEFLATE if z else (HS_UNKNOWN_EXT if uext else HS_PLAIN)), cuts=cuts)
     policy = H.TablePolicy({'poll#0': [['close', 1000, 'app-close']]}) if closing else None
-    run = H.drive(w, ws_kwargs=dict(compress=True) if z else None, connect_kwargs=dict(ping_rate=0), policy=policy)
+    run = H.drive(w, ws_kwargs=dict(compress=True) if (z or uext) else None, connect_kwargs=dict(ping_rate=0), policy=policy)
     acc.count2('oracle', 'violation_runs_judged')
     acc.executed()
     if closing:
